@@ -128,7 +128,7 @@ def tolist(v):
     return [x for x in v if x is not None]
 
 
-def make_op(rng, tasks, wbss, facades):
+def make_op(rng, tasks, wbss, facades, mode='mixed'):
     t = rng.choice(tasks); u = rng.choice(tasks); v = rng.choice(tasks); w = rng.choice(wbss)
     some = lambda: rng.sample(tasks, rng.randint(0, min(3, len(tasks))))
     dup = lambda: [rng.choice(tasks) for _ in range(rng.randint(0, 3))]
@@ -188,6 +188,10 @@ def make_op(rng, tasks, wbss, facades):
             Op(f'{fo}.sort("id")', lambda: f.sort('id'), [R(owner)], ('sort', R(owner), False)),
             Op(f'{fo}.insert({i}, {tn(u)})', lambda: f.insert(i, u), [R(owner), u], ('insert-child', R(owner), i, u)),
         ]
+    if mode == 'links':
+        cand = [o for o in cand if o.effect[0] in ('assign-links', 'append-link', 'remove-link')]
+    elif mode == 'hierarchy':
+        cand = [o for o in cand if o.effect[0] not in ('assign-links', 'append-link', 'remove-link', 'construct')]
     return rng.choice(cand)
 
 
@@ -348,14 +352,18 @@ def _anc(snap, x):
 def walk(seed, index, props, steps=12, n=None, verbose=False):
     rng = case_rng(seed, 'graph', index)
     n = n or rng.choice([3, 4, 4, 5])
-    tasks = [Task(rng.randint(1, max(2, n - 1)), f't{i}') for i in range(n)]
+    mode = rng.choice(['mixed', 'mixed', 'links', 'hierarchy'])
+    if mode == 'links':
+        steps = 16; tasks = [Task(i + 1, f't{i}') for i in range(n)]          # distinct ids, dependency edits only (incl. reading the closures)
+    else:
+        tasks = [Task(rng.randint(1, max(2, n - 1)), f't{i}') for i in range(n)]
     wbss = [WBS(), WBS()]
     roots = [w._root() for w in wbss]
     allt = tasks + roots
     facades = []; hist = []; viol = []; tags = set()
     desc = {'tasks': [f't{i}=Task({t.id})' for i, t in enumerate(tasks)], 'history': hist}
     for st in range(steps):
-        op = make_op(rng, tasks, wbss, facades)
+        op = make_op(rng, tasks, wbss, facades, mode)
         before = snapshot(allt)
         ret = None
         try:
@@ -367,6 +375,18 @@ def walk(seed, index, props, steps=12, n=None, verbose=False):
         except Exception as e:
             outcome = 'raise:' + type(e).__name__
         hist.append(op.name + ' -> ' + outcome)
+        # task objects created by the call (a constructor, also a rejected one that already attached its object) join the universe
+        known_ids = {id(t) for t in allt}; grew = False
+        frontier = list(allt) + ([ret] if isinstance(ret, Task) else [])
+        while frontier:
+            t = frontier.pop()
+            for y in [P(t)] + list(CH(t)) + list(PRE(t)) + list(SUC(t)) + ([t] if id(t) not in known_ids else []):
+                if y is not None and id(y) not in known_ids:
+                    known_ids.add(id(y)); tasks.append(y); allt.append(y); frontier.append(y); grew = True
+                    desc['tasks'].append(f't{len(tasks) - 1}=Task({y.id}) [created by call {len(hist)}]')
+        if grew:
+            for t in allt:
+                if id(t) not in before: before[id(t)] = (None, [], [], [], None)        # did not exist before the call
         after = snapshot(allt)
         found = []
         if outcome != 'ok' and not snap_eq(before, after):
@@ -389,7 +409,7 @@ def walk(seed, index, props, steps=12, n=None, verbose=False):
             break
         bad_any = check_inv(tasks, wbss)
         if bad_any: break                        # state corrupted w.r.t. another property: start a new walk
-        if rng.random() < .25:
+        if rng.random() < (.5 if mode == 'hierarchy' else .25):
             o = rng.choice(tasks + wbss)
             facades.append(((o.roots if isinstance(o, WBS) else o.children), o))
     return viol, tags, desc, 'ok'
